@@ -18,6 +18,8 @@ L(p) == [t |-> "L", p |-> p]
 R == [t |-> "R"]
 P == [t |-> "P"]
 B == [t |-> "B"]
+I == [t |-> "I"]
+O(c) == [t |-> "O", c |-> c]
 Lines ==
   CASE Universe = "H"  -> { H(l) : l \in 1..6 } \cup {R, P}
     [] Universe = "L"  -> { L(p) : p \in Markers(4) }
@@ -27,6 +29,14 @@ Lines ==
     [] Universe = "M6" -> { H(l) : l \in 1..6 } \cup { L(p) : p \in { <<"*">>, <<"#">>, <<"*", "*">>, <<"*", "#">> } }
                           \cup {R, P, B}
     [] Universe = "M5" -> { H(l) : l \in 1..3 } \cup { L(p) : p \in { <<"*">>, <<"#">>, <<"*", "*">> } } \cup {R, P, B}
+    \* the indented line (a preformatted block that is still open when the next line arrives) as a line of its own:
+    \* directly before / after headings, list lines, rules, with and without a section open
+    [] Universe = "I"  -> { H(l) : l \in 1..3 } \cup { I, L(<<"*">>), L(<<"*", "*">>), R, P, B }
+    [] Universe = "I5" -> { H(l) : l \in 1..4 } \cup { I, L(<<"*">>), L(<<"#">>), L(<<"*", "*">>), R, P, B }
+    [] Universe = "FI" -> { [t |-> "H", l |-> l, f |-> TRUE] : l \in 2..3 }
+                          \cup { [t |-> "I", f |-> TRUE], I, [t |-> "L", p |-> <<"*">>, f |-> TRUE], [t |-> "P", f |-> TRUE] }
+    \* unbalanced openers (outside the property: the expectation is the machine's, DRIFT only)
+    [] Universe = "O"  -> { H(2), H(3), I, L(<<"*">>), R, P } \cup { O(c) : c \in OpenKinds }
     [] Universe = "F"  -> { [t |-> "H", l |-> l, f |-> TRUE] : l \in 1..3 } \cup { [t |-> "L", p |-> p, f |-> TRUE] : p \in Markers(2) }
                           \cup { [t |-> "P", f |-> TRUE], R, P }
 
@@ -121,21 +131,27 @@ Spec == Init /\ [][Next]_vars
 AsIsRelevant == (\E i \in 1..Len(doc) : doc[i].t = "R") /\ (\E i \in 1..Len(doc) : doc[i].t = "H" /\ doc[i].l = 1)
 \* M: the transcribed algorithm (with the rule fix) realises the nesting model;
 \* G: the case is printed with what the model demands
+HasO == \E i \in 1..Len(doc) : doc[i].t = "O"
 Case ==
   \* (bound variables are evaluated once; LET definitions would be re-evaluated on every use)
   \E tree \in { Finish(pst).root } :
-  \E ref \in { RefRelations(Plain(doc)) } :
+  \E mrel \in { TreeRelations(tree, doc, W) } :
+  \* a document with an unbalanced opener is outside the property: what the machine does is the expectation (ext)
+  \E ref \in { IF HasO THEN mrel ELSE RefRelations(Plain(doc)) } :
   \E treeA \in { IF AsIsRelevant THEN MachineTree(doc, AllDevs) ELSE tree } :
     LET base == IF IsSUniverse THEN [doc |-> Plain(doc), rel |-> ref, sdoc |-> doc]
+                ELSE IF HasO THEN [doc |-> Plain(doc), rel |-> ref, tree |-> tree, ext |-> TRUE]
                 ELSE [doc |-> Plain(doc), rel |-> ref, tree |-> tree] IN
     /\ PrintT(<<"CASE", ToJson(IF treeA # tree
                                  THEN base @@ [asis |-> TreeRelations(treeA, doc, W), treeA |-> treeA]
                                  ELSE base)>>)
     /\ ~pst.stuck
-    /\ TreeRelations(tree, doc, W) = ref
+    /\ mrel = ref
 MachineOK == Case
 \* Demo: the as-is machine (hline_fn without LEVEL1 in its stop set) against the model
 AsIsOK == TreeRelations(MachineTree(doc, AllDevs), doc, W) = RefRelations(Plain(doc))
 \* Demo: a machine whose line-start switch is a flag instead of a counter against the model
 FlagOK == TreeRelations(MachineTree(doc, ModelDevs), doc, W) = RefRelations(Plain(doc))
+\* Demo: a machine whose heading loop needs an open section against the model
+NestOK == TreeRelations(MachineTree(doc, NestDevs), doc, W) = RefRelations(Plain(doc))
 =============================================================================
